@@ -43,6 +43,31 @@ func aI(i int64) argval  { return argval{ty: gInt, i: i} }
 func aS(s string) argval { return argval{ty: gStr, s: s} }
 func aB(b bool) argval   { return argval{ty: gBool, b: b} }
 
+// nearStrings: values that differ from s as little as possible - one letter in the other case, one byte more or less,
+// a blank or a NUL at an end, the last byte changed.
+func nearStrings(s string) []string {
+	flip := func(i int) string {
+		c := s[i]
+		switch {
+		case c >= 'a' && c <= 'z':
+			c -= 32
+		case c >= 'A' && c <= 'Z':
+			c += 32
+		default:
+			c ^= 1
+		}
+		return s[:i] + string([]byte{c}) + s[i+1:]
+	}
+	out := []string{s + "x", s + " ", s + "\x00", " " + s}
+	if len(s) > 0 {
+		out = append(out, flip(0), flip(len(s)-1), s[:len(s)-1], s[1:], s[:len(s)-1]+string([]byte{s[len(s)-1] + 1}))
+	}
+	if len(s) > 2 {
+		out = append(out, flip(len(s)/2))
+	}
+	return out
+}
+
 type dgen struct {
 	r      *rand.Rand
 	counts map[string]int
@@ -404,7 +429,13 @@ func (d *dgen) fnStrCompare(idx int) *gfunc {
 	for _, c := range fam {
 		f.tuples = append(f.tuples, []argval{aS(c)})
 	}
-	f.tuples = append(f.tuples, []argval{aS("")}, []argval{aS(fam[0] + "x")}, []argval{aS(fam[len(fam)-1][:len(fam[len(fam)-1])/2])})
+	f.tuples = append(f.tuples, []argval{aS("")}, []argval{aS(fam[len(fam)-1][:len(fam[len(fam)-1])/2])})
+	for _, c := range fam {
+		near := nearStrings(c)
+		for _, j := range d.r.Perm(len(near))[:3] {
+			f.tuples = append(f.tuples, []argval{aS(near[j])})
+		}
+	}
 	return f
 }
 
@@ -493,9 +524,9 @@ func (d *dgen) fnBoolTable(idx int) *gfunc {
 
 var formats = []string{
 	"", "lit", "%", "%%", "100%% done", "%%%%", "%%%", "%d", "%s", "%v", "%d%%", "%!", "%!d", "%z", "%5d|", "%-5s|", "%05d", "%q", "%x", "%X",
-	"%t", "%c", "%U", "%+d", "%[1]d", "%[2]v %[1]v", "%[3]v", "%[0]d", "%*d", "%.2s", "%d %d", "%s %s %s", "%v|%v|%v", "%%%d", "é%sé", "\x00%d", "%\n",
+	"%t", "%c", "%U", "%+d", "%[1]d", "%[2]v %[1]v", "%[3]v", "%[0]d", "%.2s", "%d %d", "%s %s %s", "%v|%v|%v", "%%%d", "é%sé", "\x00%d", "%\n",
 	"%v %", "% d", "%08.3f", "%e", "%T", "%T %T %T", "%#v", "%+v", "%6.2v|", "%-8q|", "%#x", "% x", "%o", "%b", "%s%%s", "%d%s%d", "%v%v", "%!(EXTRA)",
-	"%w", "%.*s", "%[1]*[2]d", "%[2]*[1]d", "%.0d", "%+q", "%#q", "%#U", "%x%X", "\xff%s", "%\xff", "%é", "%10%|", "%-%", "%v\x00%v",
+	"%w", "%.0d", "%+q", "%#q", "%#U", "%x%X", "\xff%s", "%\xff", "%é", "%10%|", "%-%", "%v\x00%v",
 }
 
 var sprintfStrs = []string{"", "a", "%", "%d", "%%", "é", "\xff", "a\x00b", "x y", "100%% done", "%s", "\n"}
@@ -524,10 +555,22 @@ func (d *dgen) fnSprintf(idx int) *gfunc {
 	}
 	call := func() string {
 		var format string
-		switch d.r.Intn(6) {
-		case 0:
+		switch d.r.Intn(12) {
+		case 0, 1:
 			d.note("sprintf:format-from-parameter")
 			format = "p0"
+		case 2:
+			// width / precision taken from the arguments: only with small literal widths (a width is a length of the result)
+			d.note("sprintf:star-width")
+			w := strconv.Itoa(d.r.Intn(9))
+			switch d.r.Intn(3) {
+			case 0:
+				return "fmt.Sprintf(" + d.str("%*d|") + ", " + w + ", p1)"
+			case 1:
+				return "fmt.Sprintf(" + d.str("%-*s|%.*s") + ", " + w + ", p0, " + strconv.Itoa(d.r.Intn(4)) + ", p0)"
+			default:
+				return "fmt.Sprintf(" + d.str("%[2]*[1]d|%*d") + ", p1, " + w + ")"
+			}
 		default:
 			format = d.str(formats[d.r.Intn(len(formats))])
 		}
